@@ -191,7 +191,6 @@ func (interp *Interpreter) Execute(p *Program) (res reflect.Value, err error) {
 func (interp *Interpreter) ExecuteWithContext(ctx context.Context, p *Program) (res reflect.Value, err error) {
 	interp.mutex.Lock()
 	interp.done = make(chan struct{})
-	interp.cancelChan = !interp.opt.fastChan
 	interp.mutex.Unlock()
 
 	done := make(chan struct{})
